@@ -327,7 +327,7 @@ def load_known(prop):
     if os.path.exists(path):
         for line in open(path):
             line = line.strip()
-            if line and not line.startswith('#'):
+            if line.startswith('{'):
                 d = json.loads(line)
                 if d.get('property') == prop:
                     out.append(d)
